@@ -52,9 +52,14 @@ def cases(tier, seed):
             case["at"] = ["/resolutions/1000", "/a/b"][h % 2]      # a level of a multires file / any nested group
         if h % 7 == 6:
             case["prior"] = True                                   # the path held another collection before
-        if h % 11 == 4 and not x0:
+        if h % 9 == 7:
+            case["stale"] = True                                   # balanced through an object that predates the current content
+        if h % 11 in (4, 8) and not x0:
             case["via"] = "cli"
             case["o"]["rescale"] = True
+            case["nproc"] = [0, 1, 2, 8][(h // 11) % 4]            # 0: the command's default (8 processes)
+            if h % 11 == 8:
+                case["px"] = case["px"][:rng.randint(0, 6)]        # fewer stored pixels than worker processes
             # (the blacklist goes through a BED file with a header line: one region per blacklisted bin, ending on the bin edge)
         yield "bl.balance", case
     # (2) witness family: uniform filtered marginals S in {4, 16, 64}: exact weights 1/sqrt(S), scale S, converged
